@@ -297,13 +297,46 @@ func (c *Ctx) redisAtomicPrimitives(r *redisRoles, rule string) {
 				}
 			})
 		}
+		// the other spelling of MULTI/EXEC: pipe := tx.TxPipeline(); pipe.Set(...); pipe.Exec(ctx) in the callback itself
+		viaTxPipeline := false
+		if set != nil && setFn == cb && !okSet && sameKey(cmdArgs(set)[0]) {
+			var pipe *ssa.Call
+			for _, o := range ir.Origins(ir.Recv(set)) {
+				if pc, isCall := o.(*ssa.Call); isCall && redisCmd(pc, "TxPipeline") != nil {
+					if prm, isParam := baseOf(ir.Recv(pc)).(*ssa.Parameter); isParam && ir.IsNamed(prm.Type(), redisPkg, "Tx") {
+						pipe = pc
+					}
+				}
+			}
+			if pipe != nil {
+				isExec := func(x ssa.Instruction) bool {
+					ex := redisCmd(x, "Exec")
+					if ex == nil {
+						return false
+					}
+					for _, o := range ir.Origins(ir.Recv(ex)) {
+						if o == ssa.Value(pipe) {
+							return true
+						}
+					}
+					return false
+				}
+				if w, err := (ir.Query{Fn: cb, From: set, Block: isExec, Target: ir.IsExit}).Find(); err == nil && w == nil {
+					okSet, viaTxPipeline = true, true
+				}
+			}
+		}
 		c.Decide(rule, fn, "CAS writes the watched key inside MULTI/EXEC", set, okSet, "the write is not queued in the MULTI/EXEC pipeline of the watching transaction for the same key")
 		// the write is dominated by the version-equal edge
 		if set != nil {
 			okCmp := false
 			for _, f := range []*ssa.Function{cb} {
 				ir.Instrs(f, func(in ssa.Instruction) {
-					if tp := redisCmd(in, "TxPipelined"); tp != nil {
+					tp := redisCmd(in, "TxPipelined")
+					if tp == nil && viaTxPipeline && in == ssa.Instruction(set) {
+						tp = set
+					}
+					if tp != nil {
 						if hasFactCmp(tp.Block(), func(cm ir.Cmp) bool {
 							return cm.Op == token.EQL && ir.LoadedField(cm.X) == r.recVersion && ir.LoadedField(cm.Y) == r.recVersion
 						}) {
@@ -547,6 +580,10 @@ func (c *Ctx) redisTTL(r *redisRoles, r3, r4, r5 string) {
 					fa, isFA := u.X.(*ssa.FieldAddr)
 					return isFA && fa.X == cell
 				})
+				if !ok {
+					// a pre-pass over the whole batch ("no record expires") instead of a test per record
+					ok = r.batchWithoutExpiry(in, cell)
+				}
 				c.Decide(r5, fn, "MSET batch holds only records without expiry", in, ok, "a record is put into the MSET batch without the test that it has no ExpiresAt: MSET cannot carry a TTL, the record would never expire")
 			}
 		})
@@ -1033,6 +1070,12 @@ func (c *Ctx) putReturnsOwnRecord(rule string, fn *ssa.Function, encode *ssa.Fun
 					ok = true
 				}
 			}
+			// the written record handed on through local copies (result variables of helpers)
+			for _, cc := range ir.CopyChain(v) {
+				if cell != nil && cc == cell {
+					ok = true
+				}
+			}
 		}
 		c.Decide(rule, fn, "returns the record it wrote", ret, ok, "the operation returns a record read back from the storage instead of the one it wrote: a concurrent writer in between makes a successful write report somebody else's version and value (the same version is handed to several writers)")
 	}
@@ -1049,4 +1092,44 @@ func callsByName(fn *ssa.Function, name string) bool {
 		}
 	})
 	return found
+}
+
+// batchWithoutExpiry: the record in cell is an element of a slice about which a dominating flag says "every element has
+// ExpiresAt == nil" (an any/all loop over the same slice run before the batch is assembled).
+func (r *redisRoles) batchWithoutExpiry(at ssa.Instruction, cell ssa.Value) bool {
+	// the slice the record comes from
+	var from ssa.Value
+	if al, ok := cell.(*ssa.Alloc); ok {
+		for _, st := range ir.StoresTo(al) {
+			if ld, isLd := st.Val.(*ssa.UnOp); isLd && ld.Op == token.MUL {
+				if ia, isIA := ld.X.(*ssa.IndexAddr); isIA {
+					from = ia.X
+				}
+			}
+		}
+	}
+	if ia, ok := cell.(*ssa.IndexAddr); ok {
+		from = ia.X
+	}
+	if from == nil {
+		return false
+	}
+	for _, f := range ir.Facts(at.Block()) {
+		ff := f.StripNot()
+		for _, ef := range ir.UniversalFacts(ff.Cond, ff.True) {
+			if ir.Resolve(ef.Slice) != ir.Resolve(from) {
+				continue
+			}
+			if (ef.Test.Op != token.EQL && ef.Test.Op != token.NEQ) || (ir.LoadedField(ef.Test.X) != r.recExpires && ir.LoadedField(ef.Test.Y) != r.recExpires) {
+				continue
+			}
+			if !ir.IsNilConst(ef.Test.X) && !ir.IsNilConst(ef.Test.Y) {
+				continue
+			}
+			if ef.Outcome == (ef.Test.Op == token.EQL) {
+				return true
+			}
+		}
+	}
+	return false
 }
